@@ -80,7 +80,7 @@ func init() {
 		Runs: map[string]int{"quick": 100000, "thorough": 4000000}, Chunk: 200, RunTimeoutS: 180,
 		Rule: "one case = one corpus font image (sfnt, TTC, WOFF, dfont) served by the simulated disk with a fault plan, then opened (ParseTTC or FontMap.AddFont) and, if it opens, queried exhaustively per face (cmap, advances, extents, outlines/bitmaps/SVG, names, metrics, variations, ppem) and shaped in three directions, all under tick and allocation budgets linear in the image size. Families: (systematic) truncation at every table boundary +-{0,1,2,4}, inside every table header and at every directory record, then every 32-bit directory field and every 16/32-bit field of the first 32 bytes of every table set to 0, 1, max and near-size values, walked by run index (quick: a VERIF_SEED-chosen window of 30000; thorough: the complete list, reported as exhaustive_subspace_cases); (pristine) fault-free, must equal a bytes.Reader load; (random) 1-3 stored-byte faults (truncation, bit flip, 16/32-bit field overwrite with boundary values, zeroed sector, swapped table bodies; 75% aimed at table headers, directory records and boundaries) and 0-2 transient I/O faults (EIO, early EOF, legal short read at the k-th call). distinct = distinct hash of the case; non-trivial = a stored-byte fault was applied or an I/O fault actually fired (or pristine equivalence was checked).",
 		Assumptions: []string{
-			"step budget 40M + 4000 ticks/byte and allocation budget 256 MiB + 600 B/byte of image; calibrated on the pristine corpus (evidence: other_counters.ticks)",
+			"step budget 40M + 4000 ticks/byte for load and for the queries of one face, 2G + 4000 ticks/byte for the shaping calls of one face (the shaper bounds its own work by an operation budget that does not depend on the image, so a flat ceiling is the only sound budget there), allocation budget 256 MiB + 600 B/byte of image; calibrated on the pristine corpus (evidence: other_counters.max.*_permille_of_budget)",
 			"go/ast text-splice instrumentation preserves semantics (the pristine family compares against an uninstrumented-reader load inside the same build; the baseline suite is not run on the instrumented copy)",
 			"time spent inside the standard library (zlib for WOFF) is only covered by the wall-clock backstop",
 			"panic sites listed in known_findings.json are printed as KNOWN-FINDING, any other site is a violation",
